@@ -200,7 +200,7 @@ def rule_r2_underscore_closure(body, log, where):
 def rule_r3_macros(body, log, where, fname):
     kind = rs.code_mask(body)
     edits = []
-    for s, e, m in rs.find_code(body, kind, r'\b(debug|info|trace|warn|error)!\s*\(', 0, len(body)):
+    for s, e, m in rs.find_code(body, kind, r'\b(debug|info|trace|warn|error|eprintln|println|eprint|print)!\s*\(', 0, len(body)):
         close = rs.match_close(body, kind, e - 1)
         edits.append((s, close + 1, '()', 'R3.log_macro'))
     k = 0
@@ -399,7 +399,7 @@ def rule_r9_iter_first(body, log, where):
         r = '__r9_%d' % n9
 
         def apply(arg, elem, by_ref):
-            mc = re.match(r'\|\s*([A-Za-z_]\w*)\s*\|\s*(.*)$', arg, re.S)
+            mc = re.match(r'\|\s*([^|]+?)\s*\|\s*(.*)$', arg, re.S)
             if mc:
                 return '{ let %s = %s%s; %s }' % (mc.group(1), '&' if by_ref else '', elem, mc.group(2).strip())
             if re.fullmatch(r'[\w:]+', arg):
@@ -549,6 +549,43 @@ def rule_r13_continue(body, log, where):
         body = body[:s_] + 'if !(%s) {' % m.group(1).strip() + rest + '}\n' + body[bc:]
         n += 1
     log.hit('R13.continue', n, where)
+    return body
+
+
+def rule_r14_for_filter_map(body, log, where):
+    """R14: `for X in E.filter_map(F) { S }` (F a function path)  ->  `for __y in E { if let Some(X) = F(__y) { S } }`
+       (std: filter_map yields, in order, the payloads of the `Some` results of F). Opt-in (`rules=R14`)."""
+    n = 0
+    while True:
+        kind = rs.code_mask(body)
+        hit = None
+        for s_, e_, m in rs.find_code(body, kind, r'\bfor\s+(\w+)\s+in\s+', 0, len(body)):
+            j = e_
+            depth = 0
+            while j < len(body):
+                if kind[j] == 'c':
+                    c = body[j]
+                    if c in '([':
+                        depth += 1
+                    elif c in ')]':
+                        depth -= 1
+                    elif c == '{' and depth == 0:
+                        break
+                j += 1
+            expr = body[e_:j].rstrip()
+            mf = re.search(r'\.\s*filter_map\s*\(\s*([\w:]+)\s*\)$', expr)
+            if mf:
+                hit = (s_, e_, m, j, expr[:mf.start()].strip(), mf.group(1)); break
+        if hit is None:
+            break
+        s_, e_, m, j, src_expr, f = hit
+        bclose = rs.match_close(body, kind, j)
+        n += 1
+        y = '__y14_%d' % n
+        inner = body[j + 1:bclose]
+        new = 'for %s in %s { if let Some(%s) = %s(%s) {%s} }' % (y, src_expr, m.group(1), f, y, inner)
+        body = body[:s_] + new + body[bclose + 1:]
+    log.hit('R14.for_filter_map', n, where)
     return body
 
 
@@ -864,7 +901,7 @@ def keep_is_path(keep, t):
     return False
 
 
-def apply_fn(d, log, fnmap, out_lineno):
+def _apply_fn_full(d, log, fnmap, out_lineno, stub_only=False):
     file, src, kind, it = get_item(d.spec)
     if it.kw != 'fn':
         raise Undecided('lost anchor: %s is not a fn' % d.spec)
@@ -910,6 +947,17 @@ def apply_fn(d, log, fnmap, out_lineno):
         sep = '' if inner == '' or inner.endswith(',') else ', '
         header = header[:po + 1] + inner + sep + ', '.join(d.ghost_params) + header[pc:]
         log.hit('R10.ghost_param', len(d.ghost_params), where)
+    if stub_only:
+        # the body could not be brought into the verified text (lost anchor / rule failure): keep the function as an assumed
+        # contract so that the rest of the unit stays decidable; the caller reports its obligations as undecided
+        pre = d.opts.get('pre', '').replace('~', ' ')
+        text = '#[verifier::external_body] ' + (pre + ' ' if pre else '') + header + '\n' + '\n'.join(d.spec_lines) + ('\n' if d.spec_lines else '') + '{ unimplemented!() }\n'
+        nlines = text.count('\n')
+        first_line = src.count('\n', 0, it.sig_start) + 1
+        fnmap.append({'label': label, 'fn': name, 'source': file, 'source_line': first_line,
+                      'gen_first': out_lineno, 'gen_last': out_lineno + nlines - 1, 'body_first': out_lineno + nlines - 1,
+                      'spec': d.spec, 'new_calls': [], 'isolated': stub_only, 'gen_fn': d.opts.get('rename', name)})
+        return text
     new_calls = []
     if d.calls is not None:
         new_calls = [c for c in call_names(body) if c not in d.calls]
@@ -929,6 +977,8 @@ def apply_fn(d, log, fnmap, out_lineno):
         body = rule_r9_iter_first(body, log, where)
     if 'R13' in d.opts.get('rules', ''):
         body = rule_r13_continue(body, log, where)
+    if 'R14' in d.opts.get('rules', ''):
+        body = rule_r14_for_filter_map(body, log, where)
     if 'R11' in d.opts.get('rules', '') or 'R12' in d.opts.get('rules', ''):
         body = rule_r11_r12_zip_collect(body, log, where)
     if 'R4' not in d.norules:
@@ -1020,6 +1070,20 @@ def apply_fn(d, log, fnmap, out_lineno):
                   'spec': d.spec, 'new_calls': new_calls})
     log.taken.append({'item': d.spec, 'kind': 'fn', 'source_line': first_line, 'bytes': it.end - it.sig_start})
     return text
+
+
+def apply_fn(d, log, fnmap, out_lineno):
+    """Extract a function under its contract; when only its BODY can no longer be produced mechanically, emit it as an
+    `external_body` stub under the same contract (recorded as isolated: its obligations are undecided, the others stay decidable)."""
+    n0 = len(fnmap)
+    try:
+        return _apply_fn_full(d, log, fnmap, out_lineno)
+    except Undecided as e:
+        del fnmap[n0:]
+        try:
+            return _apply_fn_full(d, log, fnmap, out_lineno, stub_only=str(e))
+        except Undecided:
+            raise e
 
 
 def _params_open(header, hk):
